@@ -13,6 +13,9 @@ git -C /repo worktree add --detach $d/repo HEAD >/dev/null 2>&1 || { echo "workt
 git -C $d/repo apply /verif/seeded/$seed/patch.diff || { echo "patch does not apply"; git -C /repo worktree remove --force $d/repo; exit 2; }
 cp -a /verif/harness $d/harness; rm -rf $d/harness/target
 sed -i "s#/repo/#$d/repo/#g; s#\.\./vendor/#/verif/vendor/#g" $d/harness/Cargo.toml
+# start from the pre-built dependency graph of ./check --setup (zlink-core itself is rebuilt: different path)
+mkdir -p $d/kt
+for b in small prod mid; do [ -d /verif/.kt/$b-w0 ] && cp -a /verif/.kt/$b-w0 $d/kt/$b-w0; done
 out=/verif/work/sweep; mkdir -p $out
 VERIF_REPO=$d/repo VERIF_HARNESS_DIR=$d/harness VERIF_KT=$d/kt VERIF_WORK=$d/work \
   /verif/check $prop --tier $tier --jobs $jobs "$@" > $out/$seed-$tier.log 2>&1
